@@ -20,6 +20,7 @@ Verdict(c) ==
     [] c.fn = "compose_slices"  -> ComposeVerdict(c)
     [] c.fn = "plan_rechunk"    -> RechunkPlanVerdict(c)
     [] c.fn = "merge_to_number" -> MergeVerdict(c)
+    [] c.fn = "divide_to_width" -> DivideVerdict(c)
     [] c.fn = "normalize_chunks" -> NormChunksVerdict(c)
     [] c.fn = "unify_chunks"    -> UnifyVerdict(c)
     [] c.fn = "moved_fraction"  -> MovedVerdict(c)
